@@ -30,7 +30,8 @@ CONSTANTS Batches,      \* set of batch sizes
           NRes,         \* stream resources
           MaxIdx,       \* stream-datum ranges lie in 0..MaxIdx
           MaxLen,       \* longest single range
-          Canonical     \* BOOLEAN: replay generation (events first, then stream datums; history kept)
+          Canonical,    \* BOOLEAN: replay generation (events first, then stream datums; history kept)
+          MaxRedesc     \* replay generation: number of mid-run re-descriptions of a stream (a new descriptor, same stream)
 
 VARIABLES
   batch,     \* chosen in Init
@@ -87,6 +88,12 @@ DoEvent(d) ==
              ELSE /\ cache' = [cache EXCEPT ![d] = c]
                   /\ UNCHANGED table
     /\ UNCHANGED <<batch, keyof, phase, ext, nrows, cons, recv, nsd, obs>>
+
+\* descriptor() for a stream that already has one (its configuration was changed mid-run): the events that follow refer
+\* to the new descriptor, they are rows of the SAME stream -- cache, table and row order are per stream, not per descriptor
+DoRedesc(d) ==
+    /\ phase = "open" /\ nev[d] > 0
+    /\ UNCHANGED <<batch, keyof, phase, nev, cache, table, ext, nrows, cons, recv, nsd, obs>>
 
 \* consume_stream_datum on the consolidator of the resource, for a list of ranges
 RECURSIVE Consumed(_, _, _)
@@ -147,9 +154,14 @@ MEvent(d) == /\ TotalEv < MaxEv
              /\ DoEvent(d) /\ Log(H("event", d, 0, 0, 0))
 MStreamDatum(r, rg) == /\ nsd < MaxSD
                        /\ DoStreamDatum(r, rg.a, rg.b) /\ Log(H("stream_datum", 0, r, rg.a, rg.b))
+NRedesc == Len(SelectSeq(hist, LAMBDA h : h.op = "redesc"))
+MRedesc(d) == /\ Canonical /\ NRedesc < MaxRedesc /\ nsd = 0
+              /\ hist # <<>> /\ hist[Len(hist)].op = "event"         \* (placed right after an event: elsewhere it changes nothing)
+              /\ DoRedesc(d) /\ Log(H("redesc", d, 0, 0, 0))
 MStop == DoStop /\ Log(H("stop", 0, 0, 0, 0))
 
 Next == \/ \E d \in Streams : MEvent(d)
+        \/ \E d \in Streams : MRedesc(d)
         \/ \E r \in Res, rg \in Ranges : MStreamDatum(r, rg)
         \/ MStop
 
